@@ -507,9 +507,10 @@ func (w *World) Step() {
 		return
 	}
 	t := tabs[s.Draw(len(tabs), "table")]
-	weights := []int{10, 6, 6, 0, 0, 0, 0, 0, 0, 0, 0, 0, 0}
+	weights := []int{10, 6, 6, 0, 0, 0, 0, 0, 0, 0, 0, 0, 0, 0, 0}
 	if w.Prof.DDL {
 		weights[3], weights[4], weights[5], weights[6], weights[7], weights[8], weights[11], weights[12] = 2, 1, 3, 1, 1, 1, 1, 1
+		weights[13], weights[14] = 1, 1
 	}
 	if w.Prof.Vacuum {
 		weights[9], weights[10] = 1, 1
@@ -632,6 +633,20 @@ func (w *World) Step() {
 			w.Exec("ALTER TABLE " + gen.Quote(t.Name) + " RENAME COLUMN " + gen.Quote(c) + " TO " + gen.Quote(w.newName("rc")))
 			w.Commit()
 		}
+	case 13: // objects that are not tables or indexes: views and triggers live in sqlite_master too
+		cols := t.ColNames()
+		w.Begin()
+		if s.Chance(1, 2, "view") {
+			w.Exec("CREATE VIEW " + gen.Quote(w.newName("vw")) + " AS SELECT " + gen.Quote(cols[0]) + " FROM " + gen.Quote(t.Name))
+		} else {
+			w.Exec("CREATE TRIGGER " + gen.Quote(w.newName("tr")) + " AFTER DELETE ON " + gen.Quote(t.Name) + " BEGIN SELECT 1; END")
+		}
+		w.Commit()
+		w.C.Probe("view-or-trigger-in-schema")
+	case 14: // ANALYZE creates sqlite_stat1 (an internal table)
+		w.Exec("ANALYZE")
+		w.Refresh()
+		w.C.Probe("analyze")
 	case 12: // drop column
 		cols := t.ColNames()
 		if len(cols) > 1 {
